@@ -33,7 +33,23 @@ int gstuffing_v1(char *data, int size, char *outdata)
         }
     }
 
-    *outdata++ = crc;
+    /* the crc byte is stuffed like any data byte: the receiver unstuffs it,
+       and a raw crc equal to the frame delimiter would end the frame early */
+    switch ((char)crc)
+    {
+    case GSTUFF_START_V1:
+        *outdata++ = GSTUFF_STUB_V1;
+        *outdata++ = GSTUFF_STUB_START_V1;
+        break;
+
+    case GSTUFF_STUB_V1:
+        *outdata++ = GSTUFF_STUB_V1;
+        *outdata++ = GSTUFF_STUB_STUB_V1;
+        break;
+
+    default:
+        *outdata++ = crc;
+    }
     *outdata++ = GSTUFF_START_V1;
 
     return (int)(outdata - outstrt);
